@@ -106,6 +106,15 @@ type GElem struct {
 }
 type UnkV struct{ id int }
 
+// ArrV: the value of a local array variable loaded as a whole (for `range arr`,
+// `arr[i]` on a value): a reference to the cells of the allocation it was loaded from.
+type ArrV struct {
+	Ptr PtrV
+	Len int64
+}
+
+func (v ArrV) key() string { return "arr:" + v.Ptr.Key }
+
 func (v IntV) key() string { return "i:" + v.L.Key() }
 func (v StrV) key() string {
 	if v.Const != nil {
